@@ -693,6 +693,14 @@ fn variants(w: &World, row: &Row) -> Vec<Variant> {
             push("moved:new_account_new_owner_signed".into(), "moved_new_owner", vec![mv.clone()], with_pta(act(n, true), nta), Expect::Succeed);
             push("moved:new_account_new_owner_unsigned".into(), "moved_old", vec![mv.clone()], with_pta(act(n, false), nta), Expect::Fail);
             push("moved:old_account_new_owner_signed".into(), "moved_old", vec![mv.clone()], act(n, true), Expect::Fail);
+            // (9'') the delegate of an EMPTIED token account: delegated before or after the token left it. The account holds 0
+            // position tokens, so nobody is "the holder's one-token delegate" through it (quantifier: "token account holding 0 or 1").
+            push("delegated1_then_moved:old_account_delegate_signed".into(), "emptied_delegate", vec![approve(1), mv.clone()], act(d, true), Expect::Fail);
+            if p.locked.is_none() {
+                // (transfer_locked_position closes the source account, so there is nothing left to delegate)
+                push("moved_then_old_account_delegated1:delegate_signed".into(), "emptied_delegate", vec![mv.clone(), approve(1)], act(d, true), Expect::Fail);
+            }
+            push("delegated1_then_moved:old_account_old_owner_signed".into(), "emptied_delegate", vec![approve(1), mv.clone()], happy.clone(), Expect::Fail);
             // (9') attacker-owned account of the right mint holding 0 tokens
             let empty = key(&format!("c04/empty/{}", p.mint));
             push(
@@ -832,7 +840,7 @@ fn product(w: &World, row: &Row, pre: &Ledger, only: Option<&str>) -> Vec<VRes> 
         Some(pos) => Prep::MoveLocked { pos: pos.clone(), dst: nta, owner: o.key, dst_owner: n.key },
         None => Prep::MoveNft { mint: p.mint, src: pta_key, dst: nta, owner: o.key, dst_owner: n.key },
     };
-    let states: Vec<(&str, Vec<Prep>)> = vec![
+    let mut states: Vec<(&str, Vec<Prep>)> = vec![
         ("no_delegate", vec![]),
         ("delegated_0", vec![approve(0)]),
         ("delegated_1", vec![approve(1)]),
@@ -841,7 +849,11 @@ fn product(w: &World, row: &Row, pre: &Ledger, only: Option<&str>) -> Vec<VRes> 
         ("revoked", vec![approve(1), Prep::Revoke { acct: pta_key, owner: o.key }]),
         ("moved", vec![mv.clone()]),
         ("moved_then_delegated_1", vec![mv.clone(), Prep::Approve { acct: nta, owner: n.key, delegate: d.key, amount: 1 }]),
+        ("delegated_1_then_moved", vec![approve(1), mv.clone()]),
     ];
+    if p.locked.is_none() {
+        states.push(("moved_then_old_account_delegated_1", vec![mv.clone(), approve(1)]));
+    }
     let ptas = [("own_account", pta_key), ("new_owner_account", nta), ("attacker_zero_balance", empty), ("forged", forged), ("attacker_other_position", row.twin[0].1)];
     let mut signers: Vec<(String, Pubkey, Option<&Actor>)> =
         vec![("owner".into(), o.key, Some(o)), ("delegate".into(), d.key, Some(d)), ("attacker".into(), a.key, Some(a)), ("new_owner".into(), n.key, Some(n))];
@@ -1257,7 +1269,7 @@ pub fn run(ctx: &Ctx) -> Report {
             r.guard(&format!("successes_{c}"), success_by_class.get(c).copied().unwrap_or(0));
         }
     }
-    for c in ["unsigned", "wrong_key", "wrong_key_unsigned", "delegate1", "delegate_not1", "delegate_unsigned", "owner_after_delegate", "moved_old", "moved_new_owner", "zero_balance", "forged", "twin", "alt_right", "rotated_old", "rotated_new"] {
+    for c in ["unsigned", "wrong_key", "wrong_key_unsigned", "delegate1", "delegate_not1", "delegate_unsigned", "owner_after_delegate", "moved_old", "moved_new_owner", "emptied_delegate", "zero_balance", "forged", "twin", "alt_right", "rotated_old", "rotated_new"] {
         r.guard(&format!("variants_{c}"), by_class.get(c).copied().unwrap_or(0));
     }
     for c in ["delegate1", "owner_after_delegate", "moved_new_owner", "alt_right", "rotated_new"] {
